@@ -11,6 +11,7 @@
 -/
 import Spydr.Compare.LemmasRefl
 import Spydr.Compare.LemmasDecide
+import Spydr.Compare.LemmasMut
 
 namespace Spydr.Compare.C20
 open Spydr.Compare
@@ -101,5 +102,117 @@ theorem unrepaired_accepts_moved_pin :
     compareUnrepaired exA exB = .ok () ∧ examined exA exA ≠ examined exA exB ∧
     WF exA ∧ Named exA ∧ UniqueNames exA ∧ NoAssign exA ∧ WF exB ∧ Named exB ∧ UniqueNames exB :=
   ⟨by decide, exA_exB_differ, by decide⟩
+
+
+/-! ## Every single structural mutation of the statement's list raises
+
+  The copy is `setDef a li di D'` / `setLib a li L'`: the original with ONE definition (library)
+  replaced.  `a` is any named netlist with unique sibling names (no bound on size); the position
+  `(li, di)` and the mutated element are arbitrary.  All are corollaries of `compare_sound`. -/
+
+/-- change a port's direction, width or array-ness (`portView` = exactly these three) -/
+theorem mutation_port_raises {a : CNetlist} {li di pi : Nat} {L : CLib} {D : CDef} {P P' : CPort}
+    (hN : Named a) (hU : UniqueNames a) (hA : NoAssign a) (hK : PropKeys a)
+    (hat : At a li di L D) (hP : D.ports[pi]? = some P) (hname : P'.name = P.name)
+    (hdiff : P'.dir ≠ P.dir ∨ P'.width ≠ P.width ∨ P'.scalar ≠ P.scalar) :
+    ∃ fam, compare a (setDef a li di { D with ports := D.ports.set pi P' }) = .error fam := by
+  apply port_mutation_raises hN hU hA hK hat hP hname
+  intro h
+  simp only [portView, PortView.mk.injEq] at h
+  rcases hdiff with hd | hd | hd
+  · exact hd h.1
+  · exact hd h.2.1
+  · exact hd (by simpa using h.2.2)
+
+/-- change a cable's width -/
+theorem mutation_cable_width_raises {a : CNetlist} {li di ci : Nat} {L : CLib} {D : CDef} {C C' : CCable}
+    (hN : Named a) (hU : UniqueNames a) (hA : NoAssign a) (hK : PropKeys a)
+    (hat : At a li di L D) (hC : D.cables[ci]? = some C) (hname : C'.name = C.name)
+    (hdiff : C'.wires.length ≠ C.wires.length) :
+    ∃ fam, compare a (setDef a li di { D with cables := D.cables.set ci C' }) = .error fam :=
+  cable_width_raises hN hU hA hK hat hC hname hdiff
+
+/-- move one connection to another port, another bit or another instance: pin `k` of wire `wi` of
+    cable `ci` becomes a *different* placed pin `p'` -/
+theorem mutation_move_connection_raises {a : CNetlist} {li di ci wi k : Nat} {L : CLib} {D : CDef} {C : CCable}
+    {w : List CPin} {p p' : CPin}
+    (hN : Named a) (hU : UniqueNames a) (hA : NoAssign a) (hK : PropKeys a)
+    (hat : At a li di L D) (hC : D.cables[ci]? = some C) (hw : C.wires[wi]? = some w) (hp : w[k]? = some p)
+    (hpOK : pinOK a D p = true) (hp'OK : pinOK a D p' = true) (hne : p' ≠ p) :
+    ∃ fam, compare a (setDef a li di
+      { D with cables := D.cables.set ci { C with wires := C.wires.set wi (w.set k p') } }) = .error fam :=
+  pin_move_raises hN hU hA hK hat hC hw hp (pinView_ne (pinCtx_of hN hU hat) hp'OK hpOK hne)
+
+/-- re-point an instance to another definition of the netlist -/
+theorem mutation_repoint_raises {a : CNetlist} {li di ki lj dj lk dk : Nat} {L K K' : CLib} {D E E' : CDef}
+    {I : CInst}
+    (hN : Named a) (hU : UniqueNames a) (hA : NoAssign a) (hK : PropKeys a)
+    (hat : At a li di L D) (hI : D.insts[ki]? = some I) (hold : I.ref = .idx lj dj) (hE : At a lj dj K E)
+    (hE' : At a lk dk K' E') (hne : (lk, dk) ≠ (lj, dj)) :
+    ∃ fam, compare a (setDef a li di { D with insts := D.insts.set ki { I with ref := .idx lk dk } }) = .error fam :=
+  inst_mutation_raises (I' := { I with ref := .idx lk dk }) hN hU hA hK hat hI rfl
+    (Or.inl (by rw [hold]; exact refView_idx_ne hN hU hE' hE hne))
+
+/-- change or drop a property of an instance: any new property list that gives one of the
+    original's slots another value (or none), or no property list at all -/
+theorem mutation_property_raises {a : CNetlist} {li di ki : Nat} {L : CLib} {D : CDef} {I : CInst}
+    {newProps : Option (List Dict)}
+    (hN : Named a) (hU : UniqueNames a) (hA : NoAssign a) (hK : PropKeys a)
+    (hat : At a li di L D) (hI : D.insts[ki]? = some I)
+    (hdiff : propsView I.props newProps ≠ propsView I.props I.props) :
+    ∃ fam, compare a (setDef a li di { D with insts := D.insts.set ki { I with props := newProps } }) = .error fam :=
+  inst_mutation_raises (I' := { I with props := newProps }) hN hU hA hK hat hI rfl (Or.inr hdiff)
+
+/-- drop or add one port, cable or instance -/
+theorem mutation_element_count_raises {a : CNetlist} {li di : Nat} {L : CLib} {D D' : CDef}
+    (hN : Named a) (hU : UniqueNames a) (hA : NoAssign a) (hK : PropKeys a)
+    (hat : At a li di L D) (hname : D'.name = D.name)
+    (hdiff : D'.ports.length ≠ D.ports.length ∨ D'.cables.length ≠ D.cables.length ∨ D'.insts.length ≠ D.insts.length) :
+    ∃ fam, compare a (setDef a li di D') = .error fam :=
+  def_count_raises hN hU hA hK hat hname hdiff
+
+/-- drop or add one definition -/
+theorem mutation_definition_count_raises {a : CNetlist} {li : Nat} {L L' : CLib}
+    (hN : Named a) (hU : UniqueNames a) (hA : NoAssign a) (hK : PropKeys a)
+    (hL : a.libs[li]? = some L) (hname : L'.name = L.name) (hdiff : L'.defs.length ≠ L.defs.length) :
+    ∃ fam, compare a (setLib a li L') = .error fam :=
+  lib_count_raises hN hU hA hK hL hname hdiff
+
+/-- drop or add one library (no hypothesis at all) -/
+theorem mutation_library_count_raises {a b : CNetlist} (hdiff : b.libs.length ≠ a.libs.length) :
+    ∃ fam, compare a b = .error fam :=
+  netlist_count_raises hdiff
+
+/-! non-vacuity: the mutations instantiated on `exA` -/
+
+theorem exA_at : At exA 0 1 ⟨some "work", none, [leaf, topDef false]⟩ (topDef false) := ⟨rfl, rfl⟩
+
+def cableN : CCable := ⟨some "n", none, [[.port 0 0, .inst 0 0 0]]⟩
+def portX : CPort := ⟨some "X", none, "IN", 1, true⟩
+def instU1 : CInst := ⟨some "u1", none, .idx 0 0, some [[("identifier", "\"INIT\""), ("value", "\"8'h01\"")]]⟩
+
+def cableN' : CCable := { cableN with wires := cableN.wires.set 0 ([CPin.port 0 0, .inst 0 0 0].set 1 (.inst 0 1 0)) }
+def topMoved : CDef := { (topDef false) with cables := (topDef false).cables.set 0 cableN' }
+def topDirChanged : CDef := { (topDef false) with ports := (topDef false).ports.set 0 { portX with dir := "OUT" } }
+def topPropsDropped : CDef := { (topDef false) with insts := (topDef false).insts.set 0 { instU1 with props := none } }
+def topRepointed : CDef := { (topDef false) with insts := (topDef false).insts.set 0 { instU1 with ref := .idx 0 1 } }
+
+/-- `exB` is `exA` with the connection `u1.A[0]` of net `n` moved to `u1.B[0]` -/
+example : exB = setDef exA 0 1 topMoved := by decide
+
+example : ∃ fam, compare exA (setDef exA 0 1 topMoved) = .error fam :=
+  mutation_move_connection_raises (p := .inst 0 0 0) (by decide) (by decide) (by decide) (by decide) exA_at
+    (C := cableN) rfl rfl rfl (by decide) (by decide) (by decide)
+
+example : ∃ fam, compare exA (setDef exA 0 1 topDirChanged) = .error fam :=
+  mutation_port_raises (P := portX) (by decide) (by decide) (by decide) (by decide)
+    exA_at rfl rfl (Or.inl (by decide))
+
+example : ∃ fam, compare exA (setDef exA 0 1 topPropsDropped) = .error fam :=
+  mutation_property_raises (I := instU1) (by decide) (by decide) (by decide) (by decide) exA_at rfl (by decide)
+
+example : ∃ fam, compare exA (setDef exA 0 1 topRepointed) = .error fam :=
+  mutation_repoint_raises (I := instU1) (by decide) (by decide) (by decide) (by decide) exA_at rfl rfl
+    (⟨rfl, rfl⟩ : At exA 0 0 _ leaf) exA_at (by decide)
 
 end Spydr.Compare.C20
